@@ -371,8 +371,9 @@ class Theory:
         dist.install(I)
         incr.install(I)
         static_lang.install(I)
-        from . import vector
+        from . import vector, adev
         vector.install(I)
+        adev.install(I)
 
         # observational meaning of concrete choice-map nodes when they flow into abstract callees (C17 lemmas):
         #   Static({})                      is the empty map
